@@ -62,9 +62,13 @@ type ConnectorConfig struct {
 	// Mode: "convert" (default; new payload of the destination signal), "mutate" or "pass"
 	// (same-signal pairs only; any other pair converts).
 	Mode string `mapstructure:"mode"`
-	// RouteTo restricts delivery to these pipeline ids (of the destination signal of the instance;
-	// ids of other signals are ignored) using the router's Consumer(ids...).
-	RouteTo []string `mapstructure:"route_to"`
+	// Routes makes the connector a routing connector: for a destination signal present as key, every
+	// Consume asks the router it was given for Consumer(ids...) with exactly the listed pipeline ids
+	// (verbatim: repeated ids, ids of pipelines the connector is not connected to and the empty list
+	// are requested as written) and forwards to what it gets. A router error is recorded in the Env
+	// (RouteErrors), nothing is forwarded and Consume returns an error naming the instance key and
+	// "cannot route". Destination signals without a key are broadcast to all connected pipelines.
+	Routes map[string][]string `mapstructure:"routes"`
 }
 
 // ExtensionConfig configures kext.
@@ -277,6 +281,8 @@ type connectorC struct {
 	from, to Signal
 	mode     string // convert | mutate | pass
 	next     Next
+	routing  bool     // a route is configured for the destination signal
+	route    []string // the route as written
 }
 
 func (c *connectorC) Capabilities() consumer.Capabilities {
@@ -290,20 +296,30 @@ func ConnTrailEntry(id string, from, to Signal) string {
 
 func (c *connectorC) consume(ctx context.Context, pl Payload) error {
 	entry := fmt.Sprintf("%s#%d", ConnTrailEntry(c.id, c.from, c.to), c.inst)
+	out := pl
 	switch c.mode {
 	case "mutate":
 		pl.AppendTrail(entry)
 		seq.Add(1)
-		return c.next.Consume(ctx, pl)
 	case "pass":
 		m := pl.Msg()
 		c.env.visit(Visit{Key: c.key, Inst: c.inst, Tag: m.Tag, Trail: m.Trail})
-		return c.next.Consume(ctx, pl)
+	default:
+		m := pl.Msg()
+		out = NewPayload(c.to, Msg{Tag: m.Tag, Trail: append(append([]string(nil), m.Trail...), entry)}, nil)
+		seq.Add(1)
 	}
-	m := pl.Msg()
-	out := NewPayload(c.to, Msg{Tag: m.Tag, Trail: append(append([]string(nil), m.Trail...), entry)}, nil)
-	seq.Add(1)
-	return c.next.Consume(ctx, out)
+	next := c.next
+	if c.routing {
+		n, err := requestRoute(c.next, c.route)
+		if err != nil {
+			m := out.Msg()
+			c.env.routeError(RouteError{Key: c.key, Inst: c.inst, Tag: m.Tag, Trail: m.Trail, Route: c.route, Err: err.Error()})
+			return fmt.Errorf("kit: %s cannot route to %v: %w", c.key, c.route, err)
+		}
+		next = n
+	}
+	return next.Consume(ctx, out)
 }
 
 func (c *connectorC) ConsumeLogs(ctx context.Context, v plog.Logs) error {
@@ -333,23 +349,15 @@ func ParsePipelineID(s string) (pipeline.ID, error) {
 	return pipeline.NewIDWithName(ps, name), nil
 }
 
-// routed narrows next to the named pipelines of its signal through the router API.
-func routed(next Next, routeTo []string) (Next, error) {
-	var ids []pipeline.ID
-	for _, s := range routeTo {
-		if !strings.HasPrefix(s, string(next.Signal)) {
-			continue
-		}
+// requestRoute asks the router behind next for Consumer(ids...) with the ids exactly as written.
+func requestRoute(next Next, route []string) (Next, error) {
+	ids := make([]pipeline.ID, 0, len(route))
+	for _, s := range route {
 		id, err := ParsePipelineID(s)
 		if err != nil {
 			return next, err
 		}
-		if id.Signal().String() == string(next.Signal) {
-			ids = append(ids, id)
-		}
-	}
-	if len(ids) == 0 {
-		return next, nil
+		ids = append(ids, id)
 	}
 	switch next.Signal {
 	case Logs:
@@ -394,11 +402,8 @@ func (e *Env) newConnector(from, to Signal, id component.ID, cfg component.Confi
 	}
 	key := ConnKey(from, to, id.String())
 	inst := e.created(key)
-	n, err := routed(next, cc.RouteTo)
-	if err != nil {
-		return nil, err
-	}
-	return &connectorC{comp: comp{env: e, key: key, inst: inst}, id: id.String(), from: from, to: to, mode: mode, next: n}, nil
+	route, routing := cc.Routes[string(to)]
+	return &connectorC{comp: comp{env: e, key: key, inst: inst}, id: id.String(), from: from, to: to, mode: mode, next: next, routing: routing, route: route}, nil
 }
 
 func (e *Env) connectorFactory(typ string, pairs []Pair) connector.Factory {
